@@ -25,6 +25,24 @@ def pcRet : Pc → Bool
   | .ret1 | .ret2 | .done => true
   | _ => false
 
+def sendCount : Pc → Nat
+  | .send _ => 1
+  | _ => 0
+
+@[simp] theorem made_nil : made [] = 0 := rfl
+@[simp] theorem made_append (a b : List Reply) : made (a ++ b) = made a + made b := by
+  simp [made, List.filter_append]
+@[simp] theorem made_cons (r : Reply) (rs : List Reply) : made (r :: rs) = (if r.op?.isSome then 1 else 0) + made rs := by
+  simp only [made, List.filter_cons]
+  split <;> simp <;> omega
+@[simp] theorem ownIn_nil (o : Nat) : ownIn o [] = 0 := rfl
+@[simp] theorem ownIn_append (o : Nat) (a b : List Notif) : ownIn o (a ++ b) = ownIn o a + ownIn o b := by
+  simp [ownIn, List.filter_append]
+@[simp] theorem ownIn_cons (o : Nat) (n : Notif) (ns : List Notif) :
+    ownIn o (n :: ns) = (if n.op = o then 1 else 0) + ownIn o ns := by
+  simp only [ownIn, List.filter_cons]
+  by_cases h : n.op = o <;> simp [h] <;> omega
+
 structure LOk (P : Notif → Prop) (l : Listener) : Prop where
   np     : l.panicked = false
   inbox  : ∀ n ∈ l.inbox, P n
@@ -36,6 +54,8 @@ structure LOk (P : Notif → Prop) (l : Listener) : Prop where
   fin    : l.finishedCalls = if l.pc = .done then 1 else 0
   ctxe   : pcRet l.pc = true → l.ctx ≠ .live
   acks   : l.acked + l.inbox.length = l.delivered
+  own    : made l.buf + made l.got + sendCount l.pc ≤ l.ownSeen
+  ownd   : l.ownSeen + ownIn l.op l.inbox = l.ownDelivered
 
 theorem ownFrom_mono {P Q : Notif → Prop} (h : ∀ n, P n → Q n) (own : Nat) (r : Reply) :
     OwnFrom P own r → OwnFrom Q own r := by
@@ -53,10 +73,10 @@ theorem lok_mono {P Q : Notif → Prop} (h : ∀ n, P n → Q n) {l : Listener} 
     pcs := fun r hr => ownFrom_mono h _ _ (hl.pcs r hr),
     buf := fun r hr => ownFrom_mono h _ _ (hl.buf r hr),
     got := fun r hr => ownFrom_mono h _ _ (hl.got r hr),
-    cap := hl.cap, closed := hl.closed, fin := hl.fin, ctxe := hl.ctxe, acks := hl.acks }
+    cap := hl.cap, closed := hl.closed, fin := hl.fin, ctxe := hl.ctxe, acks := hl.acks, own := hl.own, ownd := hl.ownd }
 
 theorem lok_new (P : Notif → Prop) (op : Nat) : LOk P (Listener.new op) := by
-  constructor <;> simp [Listener.new, pcClosed, pcRet]
+  constructor <;> simp [Listener.new, pcClosed, pcRet, sendCount]
 
 theorem replyFor_own {P : Notif → Prop} {own : Nat} {n : Notif} {r : Reply} (hn : P n)
     (h : replyFor own n = some r) : OwnFrom P own r := by
@@ -73,6 +93,17 @@ theorem replyFor_own {P : Notif → Prop} {own : Nat} {n : Notif} {r : Reply} (h
     · have h2' : n.bad = false := by cases hb : n.bad <;> simp_all
       simp [h1', h2'] at h; subst h
       exact ⟨rfl, n, hn, h1', rfl, rfl, h2'⟩
+
+theorem replyFor_some_op {own : Nat} {n : Notif} {r : Reply} (h : replyFor own n = some r) : n.op = own := by
+  unfold replyFor at h
+  by_cases h1 : n.op = own
+  · exact h1
+  · simp [h1] at h
+
+theorem replyFor_none_op {own : Nat} {n : Notif} (h : replyFor own n = none) : n.op ≠ own := by
+  unfold replyFor at h
+  intro h1
+  by_cases h2 : n.bad = true <;> simp [h1, h2] at h
 
 theorem lstep_op {fixed : Bool} {l l' : Listener} {a : LAct} (h : lstep fixed l a = some l') : l'.op = l.op := by
   cases a <;> simp only [lstep] at h
@@ -98,7 +129,7 @@ theorem room_iff {l : Listener} (hc : l.buf.length ≤ 1) : room l = true ↔ l.
 
 theorem lok_lstep {P : Notif → Prop} {fixed : Bool} {l l' : Listener} {a : LAct}
     (hl : LOk P l) (h : lstep fixed l a = some l') : LOk P l' := by
-  obtain ⟨np, hin, hpc, hbuf, hgot, hcap, hcl, hfin, hctx, hack⟩ := hl
+  obtain ⟨np, hin, hpc, hbuf, hgot, hcap, hcl, hfin, hctx, hack, hown, hownd⟩ := hl
   cases a
   case ctx =>
     simp only [lstep] at h
@@ -108,10 +139,11 @@ theorem lok_lstep {P : Notif → Prop} {fixed : Bool} {l l' : Listener} {a : LAc
       by_cases hr : room l = true
       · have hb : l.buf = [] := (room_iff hcap).mp hr
         simp [hr, push, hcc] at h; subst h
-        constructor <;> simp_all [pcClosed, pcRet, OwnFrom]
+        constructor <;> simp_all [pcClosed, pcRet, OwnFrom, sendCount, Reply.op?] <;> omega
       · simp [hr] at h
         obtain ⟨_, h⟩ := h; subst h
-        constructor <;> simp_all [pcClosed, pcRet]
+        constructor <;> simp_all [pcClosed, pcRet, sendCount, Reply.op?]
+      all_goals (try omega)
     · simp at h
   case recv =>
     simp only [lstep] at h
@@ -124,11 +156,14 @@ theorem lok_lstep {P : Notif → Prop} {fixed : Bool} {l l' : Listener} {a : LAc
       · rename_i r hrf
         simp at h; subst h
         have hown := replyFor_own (P := P) hPn hrf
-        constructor <;> simp_all [pcClosed, pcRet]
-        omega
-      · simp at h; subst h
-        constructor <;> simp_all [pcClosed, pcRet]
-        omega
+        have hop := replyFor_some_op hrf
+        constructor <;> simp_all [pcClosed, pcRet, sendCount, Reply.op?]
+        all_goals omega
+      · rename_i hnone
+        have hop := replyFor_none_op hnone
+        simp at h; subst h
+        constructor <;> simp_all [pcClosed, pcRet, sendCount, Reply.op?]
+        all_goals omega
     · simp at h
   case subClosed =>
     simp only [lstep] at h
@@ -139,10 +174,11 @@ theorem lok_lstep {P : Notif → Prop} {fixed : Bool} {l l' : Listener} {a : LAc
       · by_cases hr : room l = true
         · have hb : l.buf = [] := (room_iff hcap).mp hr
           simp [hs, hr, push, hcc] at h; subst h
-          constructor <;> simp_all [pcClosed, pcRet, OwnFrom]
+          constructor <;> simp_all [pcClosed, pcRet, OwnFrom, sendCount, Reply.op?] <;> omega
         · simp [hs, hr] at h
           obtain ⟨_, h⟩ := h; subst h
-          constructor <;> simp_all [pcClosed, pcRet]
+          constructor <;> simp_all [pcClosed, pcRet, sendCount, Reply.op?]
+      all_goals (try omega)
       · simp [hs] at h
     · simp at h
   case send =>
@@ -154,7 +190,8 @@ theorem lok_lstep {P : Notif → Prop} {fixed : Bool} {l l' : Listener} {a : LAc
       · have hb : l.buf = [] := (room_iff hcap).mp hr
         have hown := hpc r hpcl
         simp [hr, push, hcc] at h; subst h
-        constructor <;> simp_all [pcClosed, pcRet]
+        constructor <;> simp_all [pcClosed, pcRet, sendCount]
+        split <;> omega
       · simp [hr] at h
     · simp at h
   case sendCtx =>
@@ -163,7 +200,8 @@ theorem lok_lstep {P : Notif → Prop} {fixed : Bool} {l l' : Listener} {a : LAc
     · rename_i r hpcl
       split at h
       · simp at h; subst h
-        constructor <;> simp_all [pcClosed, pcRet]
+        constructor <;> simp_all [pcClosed, pcRet, sendCount, Reply.op?]
+        omega
       · simp at h
     · simp at h
   case cancel =>
@@ -171,7 +209,7 @@ theorem lok_lstep {P : Notif → Prop} {fixed : Bool} {l l' : Listener} {a : LAc
     split at h
     · rename_i hpcl
       simp at h; subst h
-      constructor <;> simp_all [pcClosed, pcRet]
+      constructor <;> simp_all [pcClosed, pcRet, sendCount, Reply.op?]
       intro hlive; split at hlive <;> simp_all
     · simp at h
   case close =>
@@ -180,19 +218,21 @@ theorem lok_lstep {P : Notif → Prop} {fixed : Bool} {l l' : Listener} {a : LAc
     · rename_i hpcl
       have hcc : l.chanClosed = false := by rw [hcl, hpcl]; rfl
       simp [hcc] at h; subst h
-      constructor <;> simp_all [pcClosed, pcRet]
+      constructor <;> simp_all [pcClosed, pcRet, sendCount, Reply.op?]
+      all_goals (try omega)
     · simp at h
   case finish =>
     simp only [lstep] at h
     split at h
     · rename_i hpcl
       simp at h; subst h
-      constructor <;> simp_all [pcClosed, pcRet]
+      constructor <;> simp_all [pcClosed, pcRet, sendCount, Reply.op?]
+      all_goals (try omega)
     · simp at h
 
 theorem lok_cstep {P : Notif → Prop} {l l' : Listener} {a : CAct}
     (hl : LOk P l) (h : cstep l a = some l') : LOk P l' := by
-  obtain ⟨np, hin, hpc, hbuf, hgot, hcap, hcl, hfin, hctx, hack⟩ := hl
+  obtain ⟨np, hin, hpc, hbuf, hgot, hcap, hcl, hfin, hctx, hack, hown, hownd⟩ := hl
   cases a
   case recv =>
     simp only [cstep] at h
@@ -202,12 +242,14 @@ theorem lok_cstep {P : Notif → Prop} {l l' : Listener} {a : CAct}
       have hr : OwnFrom P l.op r := hbuf r (by simp [hb])
       have hrest : ∀ x ∈ rest, OwnFrom P l.op x := fun x hx => hbuf x (by simp [hb, hx])
       have hlen : rest.length ≤ 1 := by rw [hb] at hcap; simp only [List.length_cons] at hcap; omega
-      refine ⟨np, hin, hpc, hrest, ?_, hlen, hcl, hfin, hctx, hack⟩
-      intro r' hr'
-      simp only [List.mem_append, List.mem_singleton] at hr'
-      rcases hr' with hr' | hr'
-      · exact hgot r' hr'
-      · subst hr'; exact hr
+      refine ⟨np, hin, hpc, hrest, ?_, hlen, hcl, hfin, hctx, hack, ?_, hownd⟩
+      · intro r' hr'
+        simp only [List.mem_append, List.mem_singleton] at hr'
+        rcases hr' with hr' | hr'
+        · exact hgot r' hr'
+        · subst hr'; exact hr
+      · simp only [hb, made_cons, made_append, made_nil] at hown ⊢
+        omega
     · simp at h
   case cancel =>
     simp only [cstep] at h
@@ -225,13 +267,15 @@ theorem lok_cstep {P : Notif → Prop} {l l' : Listener} {a : CAct}
     constructor <;> simp_all
 
 theorem lok_deliver {P : Notif → Prop} {l : Listener} {n : Notif} (hl : LOk P l) (hn : P n) :
-    LOk P { l with inbox := l.inbox ++ [n], delivered := l.delivered + 1 } := by
-  obtain ⟨np, hin, hpc, hbuf, hgot, hcap, hcl, hfin, hctx, hack⟩ := hl
+    LOk P { l with inbox := l.inbox ++ [n], delivered := l.delivered + 1,
+                   ownDelivered := l.ownDelivered + (if n.op = l.op then 1 else 0) } := by
+  obtain ⟨np, hin, hpc, hbuf, hgot, hcap, hcl, hfin, hctx, hack, hown, hownd⟩ := hl
   constructor <;> simp_all
   · intro m hm
     rcases hm with hm | hm
     · exact hin m hm
     · subst hm; exact hn
+  · omega
   · omega
 
 /-! ### lifting to the system -/
